@@ -105,7 +105,6 @@ func chainRecA(n int, leaf *zoo.RecA) *zoo.RecA {
 	return cur
 }
 
-
 // dagRec: an acyclic chain of n nodes through Next. One shared leaf is referenced near the root
 // (before the chain is descended) and again from the deepest node; every 97th node also points
 // back up to a node that is already finished (its Side) - sharing without a cycle, above and below
